@@ -207,6 +207,7 @@ class Mismatch(Exception):
     def __init__(self, what, model, detail):
         Exception.__init__(self, what)
         self.what, self.model, self.detail = what, model, detail
+        self.choices = []
 
 
 def equivalent(project_a, sub_a, project_b, sub_b, assumptions=(), max_visits=24, stats=None, timeout_ms=6000):
@@ -247,10 +248,23 @@ def compare_paths(pa, pb, assumptions=(), stats=None, timeout_ms=6000):
         for y in pb:
             if x.choices != y.choices[:len(x.choices)] and y.choices != x.choices[:len(y.choices)]:
                 continue
+            try:
+                _compare_pair(x, y, q, stats)
+            except Mismatch as mm:
+                mm.choices = x.choices if len(x.choices) >= len(y.choices) else y.choices
+                raise
+    stats["paths_a"] = stats.get("paths_a", 0) + len(pa)
+    stats["paths_b"] = stats.get("paths_b", 0) + len(pb)
+    return None
+
+
+def _compare_pair(x, y, q, stats):
+    if True:
+        if True:
             pc = x.pc + y.pc
             r, _ = q(*pc)
             if r != z3.sat:
-                continue
+                return
             stats["pairs"] = stats.get("pairs", 0) + 1
             n = min(len(x.events), len(y.events))
             for i in range(n):
@@ -278,6 +292,3 @@ def compare_paths(pa, pb, assumptions=(), stats=None, timeout_ms=6000):
             if x.end != "budget" and y.end != "budget" and len(x.events) != len(y.events):
                 _, m = q(*pc)
                 raise Mismatch("traces have different lengths (%d vs %d events)" % (len(x.events), len(y.events)), m, ("len", len(x.events), len(y.events)))
-    stats["paths_a"] = stats.get("paths_a", 0) + len(pa)
-    stats["paths_b"] = stats.get("paths_b", 0) + len(pb)
-    return None
